@@ -1,17 +1,16 @@
-\* quick, exhaustive: priority / offline / tracking focus. 2 users with every status on the server, friend and
-\* privilege; the client learns a status only while it watches the user; limit 0 raised once.
+\* teeth: watching a user by its LAST transfer only forgets an offline user that still has a queued upload: NeverOffline / KnowledgeKept.
 SPECIFICATION Spec
 CONSTANTS
-  UploadIds = {1, 3}
+  UploadIds = {1, 2, 3}
   PerUser = 2
-  MaxSlots = 1
+  MaxSlots = 2
   InitSlots = {0}
   InitTruth = {"unknown"}
-  AnyInitAttr = TRUE
+  AnyInitAttr = FALSE
   Statuses = {"unknown", "offline", "away", "online"}
   SlotBudget = 1
-  AttrBudget = 0
-  LifeBudget = 0
+  AttrBudget = 1
+  LifeBudget = 2
   TrackMgmt = TRUE
   GrantAll = FALSE
   UseUploadingUsers = TRUE
@@ -24,7 +23,7 @@ CONSTANTS
   SlotsChangeNotifies = TRUE
   TaskEndNotifies = FALSE
   RequeueTail = FALSE
-  TrackPerUser = TRUE
+  TrackPerUser = FALSE
 INVARIANT TypeOK
 INVARIANT OnePerUser
 INVARIANT FlagsIffQueued
